@@ -76,7 +76,8 @@ def case_strategy(draw):
         case["column"] = draw(st.sampled_from(["ra", "dec", "w", "z"]))
         case["value"] = draw(st.sampled_from(["nan", "inf", "-inf"]))
     if fault == "bad_patch_id":
-        case["value"] = draw(st.sampled_from([-1, 32768, 70000]))
+        # (dtype of the patch-index column, offending value representable in it)
+        case["pid_dtype"], case["value"] = draw(st.sampled_from([("i8", -1), ("i8", 32768), ("i8", 70000), ("i4", -1), ("i4", 40000), ("i2", -1), ("i2", -32768), ("i1", -1), ("u2", 32768), ("u2", 65535), ("u4", 70000)]))
     if fault == "empty_centre":
         case["at"] = draw(st.integers(0, K))
     if fault == "missing_column":
@@ -152,6 +153,7 @@ def run_case(case):
         table[col][row] = float(case["value"])
     elif fault == "bad_patch_id":
         table["pid"][row] = case["value"]
+        table["dtypes"] = dict(table.get("dtypes") or {}, pid=case.get("pid_dtype", "i8"))
     elif fault == "missing_column":
         key = {"ra": "ra_name", "dec": "dec_name", "w": "weight_name", "z": "redshift_name"}[case["column"]]
         kw[key] = "does_not_exist"
